@@ -26,6 +26,16 @@ pub fn run(ctx: &mut Ctx) {
     let mut cfg = GenCfg::standard();
     cfg.splits = true;
     let n = ctx.n(500, 30_000);
+    // known finding inexactRatio (D3 seen through the pre-pass), probed with its witness on every run
+    if let (Ok(w), Ok(b)) = (ledger::from_dsl("2022-06-20 BUY BBB 100 @ 1\n2022-07-16 BUY BBB 2 @ 1\n2022-07-16 UNSPLIT BBB RATIO 6\n2022-07-17 SELL BBB 7 @ 2\n2022-07-17 SELL BBB 10 @ 2\n2023-06-17 ACCUMULATION BBB 1 TOTAL 36.22 TAX 0\n2023-07-18 BUY BBB 20 @ 3\n"),
+                             ledger::from_dsl("2022-06-20 BUY BBB 100 @ 1\n2022-07-16 BUY BBB 2 @ 1\n2022-07-16 UNSPLIT BBB RATIO 6\n2022-07-17 SELL BBB 7 @ 2\n2022-07-17 SELL BBB 10 @ 2\n2023-07-18 BUY BBB 20 @ 3\n")) {
+        ctx.ev.evaluations += 1;
+        if let (Ok(wo), Ok(bo)) = (run_impl::impl_match(&w), run_impl::impl_match(&b)) {
+            if !total_cost(&wo, "BBB").close(&total_cost(&bo, "BBB"), 12) {
+                ctx.ev.known("inexactRatio", "D3 seen through the cost pre-pass: after a SPLIT/UNSPLIT whose ratio does not divide exactly the lots' share counts carry 28-digit residue, so a security that was sold out can keep 10^-27 of a share, to which a later accumulation or capital return is attached in full");
+            } else { ctx.ev.count("inexact-ratio-witness:no-effect"); }
+        }
+    }
     let mut cases = matcher_cases(prop, ctx, &cfg, n);
     // several cost events of one security on one date whose sum straddles the remaining expenditure
     {
@@ -89,6 +99,7 @@ pub fn run(ctx: &mut Ctx) {
         // known-finding class D6, decided by the Lean model of the pre-pass on the base ledger: inside
         // it a lot already carries negative cost, so "cancel" and "exact move" can be refused later
         let in_d6 = match ctx.model.as_mut() { Some(m) if has_kind(&l, Kind::CapReturn) => m.ask(&format!("class negativeLot {}", ledger::wire(&l))) == "yes", _ => false };
+        const D3: &str = "D3 seen through the cost pre-pass: after a SPLIT/UNSPLIT whose ratio does not divide exactly the lots' share counts carry 28-digit residue, so a security that was sold out can keep 10^-27 of a share, to which a later accumulation or capital return is attached in full";
         const D6: &str = "D6: a capital return apportioned by shares drives a cheap lot's allowable cost negative (refusal test uses the sum of the held lots' costs)";
         if let Ok(bout) = &base {
             let tk = l[r.below(l.len() as u64) as usize].ticker.clone();
@@ -108,6 +119,7 @@ pub fn run(ctx: &mut Ctx) {
                 ctx.ev.count("cancel-pairs");
                 if let Some(what) = same_match(&run_impl::impl_match(&var), &base, multi_sell_day(&l)) {
                     if in_d6 { ctx.ev.known("negativeLot", D6); break; }
+                    if inexact_ratio_class(&l, &tk) { ctx.ev.known("inexactRatio", D3); break; }
                     ctx.ev.violation("oracle", format!("an accumulation and a capital return of equal net amount on {date} do not cancel: {what}"), replay_text(prop, "oracle (b)", &what, &var, &[format!("case {name}")]));
                     break;
                 }
@@ -123,6 +135,7 @@ pub fn run(ctx: &mut Ctx) {
                     let delta = total_cost(&vout, &tk).sub(&total_cost(bout, &tk));
                     let want = if pos.is_pos() { Q::from_dec(v) } else { Q::zero() };
                     if !delta.close(&want, 12) && in_d6 { ctx.ev.known("negativeLot", D6); }
+                    else if !delta.close(&want, 12) && inexact_ratio_class(&l, &tk) { ctx.ev.known("inexactRatio", D3); }
                     else if !delta.close(&want, 12) {
                         ctx.ev.violation("oracle", format!("an accumulation of {v} on {date} with {} {tk} shares held changes that security's allowable expenditure by {}", pos.approx(), delta.approx()), replay_text(prop, "oracle (c)", "accumulation must move cost by exactly its amount", &var, &[format!("case {name}")]));
                     }
@@ -143,6 +156,7 @@ pub fn run(ctx: &mut Ctx) {
                         let delta = total_cost(&vout, &tk).sub(&total_cost(bout, &tk));
                         let want = if pos.is_pos() { Q::from_dec(v - fee).neg() } else { Q::zero() };
                         if !delta.close(&want, 12) && in_d6 { ctx.ev.known("negativeLot", D6); }
+                        else if !delta.close(&want, 12) && inexact_ratio_class(&l, &tk) { ctx.ev.known("inexactRatio", D3); }
                         else if !delta.close(&want, 12) {
                             ctx.ev.violation("oracle", format!("a capital return of net {} on {date} with {} {tk} shares held changes that security's allowable expenditure by {}", v - fee, pos.approx(), delta.approx()), replay_text(prop, "oracle (c)", "capital return must move cost by exactly its net amount", &var, &[format!("case {name}")]));
                         }
